@@ -44,8 +44,14 @@ def _child(state, cmd):
     def body(spec):
         def run(actor):
             out = []
+            inst = None
             for call in spec["calls"]:
-                inst = H._sv_new(state, call["model"])
+                how = call.get("how", "new")
+                if how == "new" or inst is None:
+                    inst = H._sv_new(state, call["model"])
+                elif how == "clone":
+                    inst = inst.clone()
+                # "more": keep evaluating the instance this thread already holds
                 for c in call["config"]:
                     H._sv_apply(inst, tuple(c))
                 out.append(H._sv_eval(state, inst, call["q"], call["fn"]))
@@ -103,8 +109,13 @@ def run_threads(cfg, decisions=None, keep_events=False):
                     violations.append({"inv": "H1", "kind": "threads", "model": t["calls"][0]["model"],
                                        "detail": "thread %s failed: %s: %s" % (t["name"], r["exc"][0], r["exc"][1][:300])})
                     continue
+                acc, cur_model = [], None
                 for call, got in zip(t["calls"], r["result"] or []):
-                    req = {"kind": "sv", "model": call["model"], "config": [list(c) for c in call["config"]],
+                    # the request an evaluation stands for = everything applied to that instance so far
+                    if call.get("how", "new") == "new" or cur_model is None:
+                        acc, cur_model = [], call["model"]
+                    acc = acc + [list(c) for c in call["config"]]
+                    req = {"kind": "sv", "model": cur_model, "config": list(acc),
                            "q": call["q"], "fn": call["fn"]}
                     fresh, unstable = H.fresh_answer(req, None, probes)
                     sr, fr = got["result"], fresh["result"]
@@ -113,6 +124,7 @@ def run_threads(cfg, decisions=None, keep_events=False):
                         violations.append({"inv": "H1", "kind": "threads", "model": call["model"],
                                            "detail": "thread %s: request %r returned %s under this interleaving but %s "
                                                      "in a fresh process" % (t["name"], req, H._short(got), H._short(fresh))})
+                        break
                     if got["args_changed"]:
                         violations.append({"inv": "H2", "kind": "threads", "model": call["model"],
                                            "detail": got["args_changed"]})
@@ -130,7 +142,10 @@ def run_threads(cfg, decisions=None, keep_events=False):
 
 
 def _call(w):
-    name = w.choice(["sphere", "cylinder", "sphere@hardsphere", "core_multi_shell", "allpd", "pyplug"])
+    return _call_for(w, w.choice(["sphere", "cylinder", "sphere@hardsphere", "core_multi_shell", "allpd", "pyplug"]))
+
+
+def _call_for(w, name):
     config = []
     if w.random() < 0.6 and H.SV_SET.get(name):
         nm, val = w.choice(H.SV_SET[name])
@@ -150,11 +165,19 @@ def gen_config(st, tier):
     threads = []
     for i in range(n):
         calls = []
-        for j in range(c.choice([1, 2, 2])):
+        for j in range(c.choice([1, 2, 2, 3, 4])):
             call = _call(w)
             if share and j == 0:
                 call["model"] = first["model"]
                 call["config"] = [list(cc) for cc in first["config"]] if w.random() < 0.5 else []
+            if j > 0 and w.random() < 0.6:
+                # go on with the instance this thread already holds (or a clone of it)
+                prev = calls[-1]
+                more = _call_for(w, prev["model"] if prev.get("how", "new") == "new" else prev["_m"])
+                more["how"] = w.choice(["more", "more", "clone"])
+                more["_m"] = more["model"]
+                call = more
+            call.setdefault("_m", call["model"])
             calls.append(call)
         threads.append({"name": "T%d" % i, "calls": calls})
     pk = c.random()
@@ -179,6 +202,17 @@ def sweep_configs(tier):
                                     {"name": "T2", "calls": [dict(call, q="q5")]}],
                         "policy": {"kind": "uniform"} if seed % 2 else {"kind": "pct", "d": 2, "horizon": 3000},
                         "sched_seed": seed})
+    for seed in range(3 if tier == "quick" else 10):
+        call = {"model": "cylinder", "config": [], "q": "q3", "fn": "evalDistribution"}
+        more = {"model": "cylinder", "how": "more", "config": [["set", "radius.width", 0.15], ["set", "radius.npts", 7]],
+                "q": "q3", "fn": "evalDistribution"}
+        clone = {"model": "cylinder", "how": "clone", "config": [["set", "length", 250.0]], "q": "q5",
+                 "fn": "calculate_Iq"}
+        out.append({"kind": "threads", "family": "threads_with_history",
+                    "threads": [{"name": "T0", "calls": [dict(call), dict(more), dict(clone), dict(more)]},
+                                {"name": "T1", "calls": [dict(call, config=[["set", "radius", 33.0]]), dict(clone), dict(more)]}],
+                    "policy": {"kind": "uniform"} if seed % 2 else {"kind": "pct", "d": 3, "horizon": 6000},
+                    "sched_seed": 100 + seed})
     return out
 
 
@@ -204,6 +238,7 @@ def shrink_candidates(cfg, decisions):
 
 
 def sample_of(cfg, res):
-    return {"kind": "threads", "threads": [[t["name"], [(c["model"], c["config"], c["q"], c["fn"]) for c in t["calls"]]]
+    return {"kind": "threads", "threads": [[t["name"], [(c.get("how", "new"), c["model"], c["config"], c["q"], c["fn"])
+                                                        for c in t["calls"]]]
                                            for t in cfg["threads"]],
             "policy": cfg["policy"]["kind"], "steps": res.get("steps"), "violations": len(res["violations"])}
